@@ -20,6 +20,8 @@ def jobs(tier, seed):
     # real threads: the real poll thread handles a flood of messages while the real timer thread saves every few ms
     for i in range(6 if q else 24):
         out.append({"kind": "real-threads", "seed": seed * 100 + i, "version": VERSIONS[i % 5], "ext": ["json", "pickle"][i % 2]})
+    for i in range(4 if q else 16):
+        out.append({"kind": "real-loop", "seed": seed * 100 + 50 + i, "version": VERSIONS[i % 5], "ext": ["pickle", "json"][i % 2]})
     return out
 
 
@@ -202,12 +204,146 @@ def run_real_threads(job, res, tmp):
             pass
 
 
+def run_real_loop(job, res, tmp):
+    """The asyncio gateway on a real event loop: messages are handled on the loop thread while the real save task saves in
+    executor threads every 5 ms (its asyncio.sleep(10.0) shortened). Queue drained, stop(), fresh gateway, load."""
+    import asyncio
+    import random
+    import threading
+    import time
+    import mysensors.persistence as mp
+    import mysensors.task as mtask
+    from mysensors import BaseAsyncGateway
+    from ..drive import AsyncRecT, projection, strict
+
+    version, ext = job["version"], job["ext"]
+    rng = random.Random(job["seed"])
+    path = os.path.join(tmp, f"rl{os.getpid()}.{ext}")
+    real_sleep = asyncio.sleep
+
+    class Asyncio:
+        @staticmethod
+        def sleep(delay, *a, **k):
+            return real_sleep(0.005 if delay == 10.0 else delay, *a, **k)
+
+        def __getattr__(self, n):
+            return getattr(asyncio, n)
+
+    stats = {"saves": 0, "save_errors": 0, "overlap": 0}
+    in_save = [0]
+    orig_save = mp.Persistence.save_sensors
+
+    def save(self):
+        if not self.need_save:
+            return orig_save(self)
+        stats["saves"] += 1
+        in_save[0] += 1
+        try:
+            return orig_save(self)
+        except BaseException:
+            stats["save_errors"] += 1
+            raise
+        finally:
+            in_save[0] -= 1
+
+    loop = asyncio.new_event_loop()
+    loop_errors = []
+    loop.set_exception_handler(lambda lp, ctx: loop_errors.append(repr(ctx.get("exception") or ctx.get("message"))[:120]))
+    th = threading.Thread(target=loop.run_forever, daemon=True, name="vf-loop")
+    th.start()
+
+    def on_loop(coro_fn, timeout=60):
+        return asyncio.run_coroutine_threadsafe(coro_fn(), loop).result(timeout)
+
+    old_asyncio = mtask.asyncio
+    mtask.asyncio = Asyncio()
+    mp.Persistence.save_sensors = save
+    stop_exc = None
+    try:
+        async def build():
+            return BaseAsyncGateway(AsyncRecT(), persistence=True, persistence_file=path, protocol_version=version)
+
+        gw = on_loop(build)
+        orig_logic = gw.logic
+
+        def logic(data):
+            if in_save[0]:
+                stats["overlap"] += 1
+            return orig_logic(data)
+
+        gw.logic = logic
+        on_loop(gw.start_persistence)
+        lines = []
+        for n in range(1, 30):
+            lines.append(f"{n};255;0;0;17;{version}")
+            lines += [f"{n};{c};0;0;6;c{c}" for c in range(3)]
+        for _ in range(1200):
+            lines.append(rng.choice([gen.valid_line(rng, version), f"{rng.randint(1, 60)};255;0;0;17;{version}",
+                                     f"{rng.randint(1, 60)};{rng.randint(0, 5)};0;0;6;d", "255;255;3;0;3;",
+                                     f"{rng.randint(1, 29)};{rng.randint(0, 2)};1;0;0;{rng.random():.3f}"]))
+        done = threading.Event()
+        for i, line in enumerate(lines):
+            loop.call_soon_threadsafe(gw.tasks.add_job, gw.logic, line)
+            if rng.random() < 0.05:
+                time.sleep(0.001)
+        loop.call_soon_threadsafe(done.set)
+        done.wait(60)
+        time.sleep(rng.choice([0.0, 0.003, 0.02]))
+        try:
+            on_loop(gw.stop)
+        except Exception as exc:
+            stop_exc = exc
+        held = projection(gw.sensors)
+        time.sleep(0.05)
+    finally:
+        mtask.asyncio = old_asyncio
+        mp.Persistence.save_sensors = orig_save
+
+        def _cancel_all():
+            for t in asyncio.all_tasks(loop):
+                t.cancel()
+            loop.call_later(0.05, loop.stop)
+        loop.call_soon_threadsafe(_cancel_all)
+        th.join(3.0)
+        if not loop.is_running():
+            loop.close()
+    fresh = {}
+    mp.Persistence(fresh, lambda save: (lambda: None), persistence_file=path).safe_load_sensors()
+    got = projection(fresh)
+    res.evals += 1
+    res.count("real_loop_runs")
+    res.count("real_loop_saves", stats["saves"])
+    res.count("real_loop_failed_saves", stats["save_errors"])
+    res.count("real_loop_messages_handled_during_a_save", stats["overlap"])
+    case = {"real_loop": True, "seed": job["seed"], "version": version, "ext": ext}
+    if stats["overlap"]:
+        res.nontrivial(("real-loop", version, ext, job["seed"]))
+    if stop_exc is not None:
+        res.count("real_thread_stops_that_raised")
+        res.notes.append(f"real loop: stop() raised {type(stop_exc).__name__} ({core.exc_sig(stop_exc)}); file afterwards "
+                         f"{'reproduces' if strict(got) == strict(held) else 'does NOT reproduce'} the state held")
+    if strict(got) != strict(held):
+        lost = sorted(set(held) - set(got))
+        changed = sorted(k for k in set(held) & set(got) if strict(held[k]) != strict(got[k]))
+        res.violation(f"stop-loses:real-loop:{'nodes' if lost else 'values'}:{ext}",
+                      f"real event loop + real save task ({stats['saves']} saves, {stats['overlap']} messages handled during a save): "
+                      f"after stop()+restart lost nodes {lost[:5]}, changed nodes {changed[:5]}", case)
+    for f in os.listdir(tmp):
+        try:
+            os.remove(os.path.join(tmp, f))
+        except OSError:
+            pass
+
+
 def run(job):
     res = Result()
     tmp = tempfile.mkdtemp(prefix="vf-c14-")
     try:
         if job["kind"] == "real-threads":
             run_real_threads(job, res, tmp)
+            return res
+        if job["kind"] == "real-loop":
+            run_real_loop(job, res, tmp)
             return res
         if job["kind"] == "last-change":
             v, fl = job["version"], job["flavour"]
@@ -279,6 +415,10 @@ def replay(case):
     res = Result()
     tmp = tempfile.mkdtemp(prefix="vf-c14-")
     try:
+        if case.get("real_loop"):
+            for k in range(3):
+                run_real_loop({"seed": case["seed"], "version": case["version"], "ext": case["ext"]}, res, tmp)
+            return res
         if case.get("real_threads"):
             for k in range(3):      # real threads: not replayable bit for bit, the same workload is run three times
                 run_real_threads({"seed": case["seed"], "version": case["version"], "ext": case["ext"]}, res, tmp)
@@ -301,16 +441,20 @@ def finish(agg, tier):
                 "stop() is called while a periodic save is in flight in the timer thread (it has serialised the state and waits in fsync; "
                 "one more state-changing line arrives in between; the timer thread finishes after stop() returned); (c) real threads: the real "
                 "poll thread handles ~1300 messages while the real threading.Timer chain saves every 5 ms (instead of 10 s), then the queue "
-                "drains, stop(), fresh gateway, load. Oracle: strict (type-tagged) projection held before "
+                "drains, stop(), fresh gateway, load; likewise the asyncio gateway on a real event loop whose save task runs in executor "
+                "threads. Oracle: strict (type-tagged) projection held before "
                 "stop() == projection of a fresh gateway after start_persistence() on the same file. distinct = (last "
                 "state-changing kind, tick pattern, format, flavour, version/history).",
         "floors": [("stops_judged", c.get("stops_judged", 0), 2000), ("last_change_cases", c.get("last_change_cases", 0), 600),
                    ("ticks", c.get("ticks", 0), 1500), ("stops_with_a_late_line", c.get("stops_with_a_late_line", 0), 150),
                    ("stops_during_a_tick", c.get("stops_during_a_tick", 0), 100),
                    ("real_thread_runs", c.get("real_thread_runs", 0), 6),
-                   ("real_thread_messages_handled_during_a_save", c.get("real_thread_messages_handled_during_a_save", 0), 50)],
+                   ("real_thread_messages_handled_during_a_save", c.get("real_thread_messages_handled_during_a_save", 0), 50),
+                   ("real_loop_runs", c.get("real_loop_runs", 0), 4),
+                   ("real_loop_messages_handled_during_a_save", c.get("real_loop_messages_handled_during_a_save", 0), 20)],
         "assumptions": ["save ticks = the real schedule_save body (threaded, captured Timer) / the real save loop on a virtual-time "
                         "asyncio loop with run_in_executor inline"],
         "show": ["histories", "stops_judged", "last_change_cases", "ticks", "stops_during_a_tick", "real_thread_runs", "real_thread_saves",
-                 "real_thread_failed_saves", "real_thread_messages_handled_during_a_save", "real_thread_stops_that_raised"],
+                 "real_thread_failed_saves", "real_thread_messages_handled_during_a_save", "real_thread_stops_that_raised",
+                 "real_loop_runs", "real_loop_saves", "real_loop_messages_handled_during_a_save"],
     }
